@@ -172,13 +172,20 @@ func check(c Case) (class, what string) {
 	if err != nil {
 		return "", "request line not deliverable by net/http: " + err.Error()
 	}
-	b, err := build(c.Desc, c.Via)
-	if err != nil {
-		return "", "description does not load: " + err.Error()
-	}
-	o := b.serve(req)
-	class, what, _ = judge(b.routes, req.Method, req.URL.EscapedPath(), o)
-	if class == "" {
+	// Operations of one method whose routed shapes coincide are wired by the library in Go map
+	// order (which one wins is decided when the API is built): the case is re-wired up to 8
+	// times and the first failing observation is the verdict.
+	for attempt := 1; attempt <= 8; attempt++ {
+		b, err := build(c.Desc, c.Via)
+		if err != nil {
+			return "", "description does not load: " + err.Error()
+		}
+		req, _ = parse(rawRequest(c.Method, c.Target))
+		o := b.serve(req)
+		class, what, _ = judge(b.routes, req.Method, req.URL.EscapedPath(), o)
+		if class != "" {
+			return class, what
+		}
 		what = "observed: " + o.String()
 	}
 	return class, what
